@@ -145,9 +145,12 @@ def section_order_rule(ctx, rule_id, reference=None):
         if isinstance(n, ast.Assign) and any(is_self_attr(t) for t in n.targets) and norm(n.value) == norm(reg.func.value):
             kept_attr = [t.attr for t in n.targets if is_self_attr(t)][0]
     pop = None
+    def _takewhile_until_self(m_):
+        return [c for c in ast.walk(m_.node) if isinstance(c, ast.Call) and norm(c.func).endswith("takewhile") and len(c.args) == 2 and isinstance(c.args[0], ast.Lambda)
+                and isinstance(c.args[0].body, ast.Compare) and isinstance(c.args[0].body.ops[0], ast.IsNot) and any(isinstance(k, ast.Name) and k.id == "self" for k in [c.args[0].body.left] + c.args[0].body.comparators)]
     for name, m in sec.methods.items():
-        if name != "__init__" and kept_attr and any(is_self_attr(x, kept_attr) for x in walk_no_nested(m.node)) and \
-                any(isinstance(n, ast.For) or (isinstance(n, ast.Subscript) and isinstance(n.slice, ast.Slice)) for n in walk_no_nested(m.node)):
+        if name != "__init__" and kept_attr and any(is_self_attr(x, kept_attr) for x in ast.walk(m.node)) and \
+                (any(isinstance(n, ast.For) or (isinstance(n, ast.Subscript) and isinstance(n.slice, ast.Slice)) for n in walk_no_nested(m.node)) or _takewhile_until_self(m)):
             pop = m
     ctx.require(pop is not None, "no method of SectionOutput scans the shared section list")
     front = reg.func.attr == "insert" and isinstance(reg.args[0], ast.Constant) and reg.args[0].value == 0
@@ -157,12 +160,20 @@ def section_order_rule(ctx, rule_id, reference=None):
     loops = [n for n in walk_no_nested(pop.node) if isinstance(n, ast.For)]
     slices = [n for n in walk_no_nested(pop.node) if isinstance(n, ast.Subscript) and isinstance(n.slice, ast.Slice) and n.slice.lower is None and n.slice.upper is not None
               and any(isinstance(c, ast.Call) and isinstance(c.func, ast.Attribute) and c.func.attr == "index" for c in walk_no_nested(n.slice.upper))]
-    ctx.require(loops or slices, "no scan over the sections")
+    tws = _takewhile_until_self(pop)
+    ctx.require(loops or slices or tws, "no scan over the sections")
 
     def rev_in(node):
         return any((isinstance(x, ast.Call) and isinstance(x.func, ast.Name) and x.func.id == "reversed") or
                    (isinstance(x, ast.Subscript) and isinstance(x.slice, ast.Slice) and isinstance(x.slice.step, ast.UnaryOp)) for x in walk_no_nested(node))
-    if loops:
+    if tws:
+        # takewhile(lambda s: s is not self, <kept list>): forward until self; what is collected from it keeps that order
+        lp = tws[0]
+        scan_rev = rev_in(lp.args[1])
+        until_self = True
+        collect_append = True
+        collect_front = False
+    elif loops:
         lp = loops[0]
         scan_rev = rev_in(lp.iter)
         until_self = any(isinstance(n, ast.If) and isinstance(n.test, ast.Compare) and isinstance(n.test.ops[0], ast.Is) and any(isinstance(b, ast.Break) for b in n.body) for n in lp.body)
@@ -224,21 +235,34 @@ def run(ctx):
     indented_record = any(isinstance(x, ast.BinOp) and isinstance(x.op, ast.Mult) and any(is_self_attr(y, "_indent") for y in (x.left, x.right))
                           for m in sec.methods.values() if m is not p.lookup_method(sec, "write") for x in ast.walk(m.node))
     n_rp = 0
+
+    def _indent_off(call):
+        wi = q.kwarg(call, "with_indent")
+        if wi is None and len(call.args) > 3:
+            wi = call.args[3]
+        return isinstance(wi, ast.Constant) and wi.value is False
+
+    # a helper of the class that hands its (first) parameter to the base write: a re-print through it is a re-print with the helper's indentation switch
+    wrappers = {}
+    for name, m in sec.methods.items():
+        ps = [a for a in m.params if a != "self"]
+        for cs in cg.sites_in(m):
+            if cs.kind == "super" and cs.node.args and ps and isinstance(cs.node.args[0], ast.Name) and cs.node.args[0].id == ps[0] \
+                    and isinstance(cs.node.func, ast.Attribute) and cs.node.func.attr == "write" and name != "write":
+                wrappers[name] = _indent_off(cs.node)
     for name, m in sorted(sec.methods.items()):
         holders = {t.id for n in walk_no_nested(m.node) if isinstance(n, ast.Assign) and isinstance(n.value, ast.Call) and isinstance(n.value.func, ast.Attribute)
                    and n.value.func.attr == pop.name for t in n.targets if isinstance(t, ast.Name)}
-        for cs in cg.sites_in(m):
-            if cs.kind != "super" or not cs.node.args:
-                continue
+        sites = [(cs.node, None) for cs in cg.sites_in(m) if cs.kind == "super" and cs.node.args]
+        sites += [(c, wrappers[c.func.attr]) for c in q.calls(m) if isinstance(c.func, ast.Attribute) and (isinstance(c.func.value, ast.Name) and c.func.value.id == "self") and c.func.attr in wrappers and c.args]
+        for call, via_off in sites:
+            cs = type("S", (), {"node": call})
             a0 = cs.node.args[0]
             erased = (isinstance(a0, ast.Name) and a0.id in holders) or (isinstance(a0, ast.Call) and isinstance(a0.func, ast.Attribute) and a0.func.attr == pop.name)
             if not erased:
                 continue
             n_rp += 1
-            wi = q.kwarg(cs.node, "with_indent")
-            if wi is None and len(cs.node.args) > 3:
-                wi = cs.node.args[3]
-            off = isinstance(wi, ast.Constant) and wi.value is False
+            off = _indent_off(cs.node) if via_off is None else via_off
             if off or not indented_record:
                 r.ok("%s: erased content re-printed with_indent=False" % m.short)
             else:
